@@ -4,22 +4,22 @@
 # then runs the given checks against the patched tree (VERIF_REPO) and prints their verdict lines.
 set -u
 d="$1"; shift
-WT=/tmp/lead-wt
+WT=${WT:-/tmp/lead-wt}
 HEAD=$(git -C /repo rev-parse HEAD)
 git -C $WT checkout -q --detach $HEAD 2>/dev/null || { git -C /repo worktree add --detach $WT HEAD -q; }
 git -C $WT checkout -q -- . ; git -C $WT clean -fdq
 cd $WT
-echo "== demo on clean tree"; PYTHONPATH=$WT/src timeout 300 /venv/bin/python "$d/demo.py" >/tmp/seed-demo-clean.log 2>&1; echo "exit=$?"
+echo "== demo on clean tree"; PYTHONPATH=$WT/src timeout 300 /venv/bin/python "$d/demo.py" >$WT.demo-clean.log 2>&1; echo "exit=$?"
 git apply "$d/patch.diff" || { echo "PATCH DOES NOT APPLY"; exit 3; }
-echo "== demo on patched tree"; PYTHONPATH=$WT/src timeout 300 /venv/bin/python "$d/demo.py" >/tmp/seed-demo-patched.log 2>&1; echo "exit=$?"; tail -3 /tmp/seed-demo-patched.log | cut -c1-300
+echo "== demo on patched tree"; PYTHONPATH=$WT/src timeout 300 /venv/bin/python "$d/demo.py" >$WT.demo-patched.log 2>&1; echo "exit=$?"; tail -3 $WT.demo-patched.log | cut -c1-300
 echo "== baseline on patched tree"
 for i in 1 2 3; do r=$(PYTHONPATH=$WT/src /venv/bin/python -m pytest -q -p no:cacheprovider --timeout=900 tests/pytest 2>&1 | tail -1); echo "$r"; case "$r" in *"31 passed"*) break;; esac; done
 cd /verif
 for c in "$@"; do
   echo "== check $c on patched tree"
-  VERIF_REPO=$WT ./check $c --tier ${TIER:-quick} --procs ${PROCS:-10} > /tmp/seed-check-$c.log 2>&1; echo "exit=$?"
-  grep -v "^VIOLATION" /tmp/seed-check-$c.log | grep "^  " | head -4 | cut -c1-260
-  tail -1 /tmp/seed-check-$c.log | cut -c1-200
+  VERIF_REPO=$WT ./check $c --tier ${TIER:-quick} --procs ${PROCS:-10} > $WT.check-$c.log 2>&1; echo "exit=$?"
+  grep -v "^VIOLATION" $WT.check-$c.log | grep "^  " | head -4 | cut -c1-260
+  tail -1 $WT.check-$c.log | cut -c1-200
 done
 git -C $WT checkout -q -- . ; git -C $WT clean -fdq
 # restore evidence written by the mutant runs
